@@ -17,6 +17,15 @@ func gen(t *rapid.T) peng.Case {
 		Cancel: true, MaxSleepUs: 3000, HoldNoRelUs: 6000, SlowQFUs: 20000, StreamItems: 6, AwaitProb: 3, ErrorNodes: true, FullQuorum: true,
 		ReleaseModes: []string{"", "", "early"}})
 	c.Probe = true
+	// requests that are too large to be sent: SendMsg fails although the stream is healthy
+	if rapid.IntRange(0, 3).Draw(t, "sendLimit") == 0 {
+		c.Mgrs[0].MaxSendBytes = 4096
+		for i := range c.Ops {
+			if c.Ops[i].Kind == "call" && rapid.IntRange(0, 3).Draw(t, fmt.Sprintf("big%d", i)) == 0 {
+				c.Ops[i].Call.Payload = 6000
+			}
+		}
+	}
 	c.GoMaxProcs = rapid.SampledFrom([]int{0, 0, 1, 2, 4}).Draw(t, "gomaxprocs")
 	return c
 }
@@ -70,6 +79,16 @@ func run(c peng.Case) vt.Verdict {
 	}
 	if cancelled {
 		classes = append(classes, "cancellations")
+	}
+	if c.Mgrs[0].MaxSendBytes > 0 {
+		classes = append(classes, "send-size-limit")
+		for _, op := range c.Ops {
+			if op.Kind == "call" && op.Call.Payload > c.Mgrs[0].MaxSendBytes {
+				classes = append(classes, "request-too-large-to-send")
+				slowqf = true // counts as non-trivial
+				break
+			}
+		}
 	}
 	for _, p := range r.Probes {
 		if p.Attempts > 1 {
